@@ -69,7 +69,7 @@ class WF:
         if k < 0.6:
             return mk("Group", [self.expr(d - 1, False)])
         if k < 0.72:
-            return mk("SearchField", [self.value(d)], name=r.choice(["f", "title", "a_b", "x1", "été"]))
+            return mk("SearchField", [self.value(d)], name=r.choice(["f", "title", "a_b", "x1", "été", "2019", "1st_author", "007", "_x", "日本"]))
         if k < 0.9:
             cls = r.choice(["AndOperation", "OrOperation", "UnknownOperation", "BoolOperation"])
             n = r.choice([1, 2, 2, 3, 4])
@@ -87,7 +87,7 @@ def defects(rng):
         ("fuzzy on a non-word", mk("Fuzzy", [rng.choice([P('"a"'), mk("Group", [W("a")])])], num=num(1))),
         ("proximity on a non-phrase", mk("Proximity", [rng.choice([W("a"), mk("Group", [P('"a"')])])], num=num(2))),
         ("negative fuzziness", mk("Fuzzy", [W("a")], num=num(rng.choice([1, 5]), rng.choice([0, -1]), neg=True))),
-        ("invalid field name", mk("SearchField", [W("a")], name=rng.choice(["bad name", "a-b", "", "a.b", "f:g"]))),
+        ("invalid field name", mk("SearchField", [W("a")], name=rng.choice(["bad name", "a-b", "", "a.b", "f:g", "cafe\u0301", "a\u00b7b"]))),
         ("non-value field expression", mk("SearchField", [rng.choice([
             mk("AndOperation", [W("a"), W("b")]), mk("Range", [W("a"), W("b")], il=True, ih=True),
             mk("Not", [W("a")]), mk("SearchField", [W("a")], name="g"), mk("Regex", v="/a/")])], name="f")),
